@@ -8,6 +8,7 @@ import (
 	"math"
 	"os"
 	"os/exec"
+	"verif/domains"
 
 	"github.com/flowmatters/openwater-core/sim"
 	"verif/simrt"
@@ -78,7 +79,13 @@ func getF64(r io.Reader, n int) ([]float64, error) {
 func engineCABI(rc *RunCtx) *Outcome {
 	o := &Outcome{}
 	w := rc.W
-	c := drawCellCase(w, 5, 40)
+	var c *cellCase
+	huge := w.Choose(120) == 119
+	if huge {
+		c = drawHugeCellCase(w)
+	} else {
+		c = drawCellCase(w, 5, 40)
+	}
 	width := len(c.stateRows[0])
 	nIn, nOut := len(c.desc.Inputs), len(c.desc.Outputs)
 	initStates := w.Bool(40)
@@ -93,7 +100,14 @@ func engineCABI(rc *RunCtx) *Outcome {
 		// InitialiseStates(nCells) sizes from cell 0: all cells share the width class already
 	}
 	c.refOut, c.refFin = nil, nil
-	c.reference()
+	if huge {
+		// tens of thousands of cells: the reference is the vectorised Go-API run on Go arrays
+		// (its equivalence with one-cell runs is C04's business)
+		c.referenceVectorised()
+		o.probe("cabi_more_than_65536_cells")
+	} else {
+		c.reference()
+	}
 	smp := c.sample()
 	smp["init_states_in_library"] = initStates
 	smp["states_buffer_passed"] = hasStates
@@ -226,3 +240,56 @@ func engineCABI(rc *RunCtx) *Outcome {
 var _ = fmt.Sprint
 var _ = sim.Catalog
 var _ = simrt.RaceBuild
+
+// drawHugeCellCase: more cells than any per-call limit a library might have (2^16 + a bit), a cheap
+// model, few timesteps, parameter-set and input-block counts that do not divide powers of two.
+func drawHugeCellCase(w *simrt.Tape) *cellCase {
+	c := &cellCase{}
+	c.Model = []string{"RunoffCoefficient", "GR4J", "Muskingum", "Sum"}[w.Choose(4)]
+	c.desc = sim.Catalog[c.Model]().Description()
+	c.N = 65537 + w.Choose(5000)
+	c.P = []int{1, 3, 7, 1000}[w.Choose(4)]
+	c.I = []int{1, 3, 5, c.N}[w.Choose(4)]
+	c.T = 1 + w.Choose(3)
+	c.cols, c.MaxDim = drawColumns(w, c.Model, c.P)
+	for b := 0; b < c.I; b++ {
+		if b < 16 {
+			c.inBlocks = append(c.inBlocks, domains.GenInputs(w, c.Model, c.cols[b%c.P], c.MaxDim, c.T))
+		} else {
+			c.inBlocks = append(c.inBlocks, c.inBlocks[b%16])
+		}
+	}
+	rows := make([][]float64, c.P)
+	for j := range rows {
+		rows[j] = initialStateRow(c.Model, c.desc, c.cols[j], c.MaxDim)
+	}
+	for i := 0; i < c.N; i++ {
+		c.stateRows = append(c.stateRows, rows[i%c.P])
+	}
+	return c
+}
+
+func (c *cellCase) referenceVectorised() {
+	nIn, nOut := len(c.desc.Inputs), len(c.desc.Outputs)
+	width := len(c.stateRows[0])
+	params := paramMatrix(false, c.cols)
+	iv := make([]float64, c.I*nIn*c.T)
+	for b := 0; b < c.I; b++ {
+		for x := 0; x < nIn; x++ {
+			copy(iv[(b*nIn+x)*c.T:], c.inBlocks[b][x])
+		}
+	}
+	sv := make([]float64, 0, c.N*width)
+	for i := 0; i < c.N; i++ {
+		sv = append(sv, c.stateRows[i]...)
+	}
+	inputs := mk3(false, c.I, nIn, c.T, iv)
+	states := mk2(false, c.N, width, sv)
+	outputs := mk3(false, c.N, nOut, c.T, nil)
+	setupModel(c.Model, params).Run(inputs, states, outputs)
+	fo, fs := flat3(outputs), flat2(states)
+	for i := 0; i < c.N; i++ {
+		c.refOut = append(c.refOut, fo[i*nOut*c.T:(i+1)*nOut*c.T])
+		c.refFin = append(c.refFin, fs[i*width:(i+1)*width])
+	}
+}
